@@ -62,6 +62,42 @@ _local = threading.local()
 _LOCK_TYPES = (type(threading.Lock()), type(threading.RLock()))
 
 
+class ThreadingProxy(object):
+    """Stands in for the `threading` module inside athlib modules: locks created at run time (lazily, per object) are
+    cooperative too."""
+
+    def __init__(self, real, registry):
+        self._real = real
+        self._registry = registry
+
+    def Lock(self, *a, **k):
+        p = CoopLock(self._real.Lock(*a, **k), 'runtime Lock')
+        p.ctl = self._registry.get('ctl')
+        self._registry['locks'].append(p)
+        return p
+
+    def RLock(self, *a, **k):
+        p = CoopLock(self._real.RLock(*a, **k), 'runtime RLock')
+        p.ctl = self._registry.get('ctl')
+        self._registry['locks'].append(p)
+        return p
+
+    def __getattr__(self, k):
+        return getattr(self._real, k)
+
+
+RUNTIME = {'ctl': None, 'locks': []}
+
+
+def proxy_threading(modules):
+    n = 0
+    for m in modules:
+        if vars(m).get('threading') is threading:
+            m.threading = ThreadingProxy(threading, RUNTIME)
+            n += 1
+    return n
+
+
 def instrument_locks(modules):
     """Replace module-global and class-level locks of the given modules with CoopLocks."""
     found = []
@@ -99,7 +135,8 @@ class Controller(object):
         self.suspended = {}           # tid -> (key, progress at suspension)
         self.locks = list(locks)
         self.record = None
-        for l in self.locks:
+        RUNTIME['ctl'] = self
+        for l in self.locks + RUNTIME['locks']:
             l.ctl = self
 
     # ---- tracing ----------------------------------------------------------------------------
@@ -151,11 +188,11 @@ class Controller(object):
         last = (self.progress, len(self.done), self.current)
         idle = 0
         while self.current != tid and not self.free_run:
-            self.cv.wait(0.05)
+            self.cv.wait(0.03)
             now = (self.progress, len(self.done), self.current)
             if now == last:
                 idle += 1
-                if idle >= 8:           # 0.4 s without a single athlib line, finish or hand-over: unknown blocking
+                if idle >= 5:           # 0.15 s without a single athlib line, finish or hand-over: unknown blocking
                     self.free_run = True
                     self.stalled = True
                     self.cv.notify_all()
@@ -226,6 +263,7 @@ class Controller(object):
         for t in ths:
             t.join(max(0.0, deadline - time.time()))
         alive = [i for i, t in enumerate(ths) if t.is_alive()]
-        for l in self.locks:
+        for l in self.locks + RUNTIME['locks']:
             l.ctl = None
+        RUNTIME['ctl'] = None
         return res, alive
